@@ -380,3 +380,41 @@ def secularize_in_context(cx, kind):
             expect = _rep4(Sx, Rs)
             secular_shape(cx, "inside.t%d" % t, cur, expect)
             trace_and_herm(cx, "inside.t%d" % t, cur)
+
+
+@harness("C01", "opensystem_dispatch",
+         quick=[dict(theory="stR", td=False, secular=False), dict(theory="stR", td=False, secular=True),
+                dict(theory="stF", td=False, secular=False)],
+         thorough=[dict(theory="stR", td=t, secular=s) for t in (False, True) for s in (False, True)] +
+                  [dict(theory="stF", td=False, secular=False), dict(theory="stF", td=True, secular=False)],
+         functions=["quantarhei/builders/opensystem.py:OpenSystem.get_RelaxationTensor",
+                    F_RED + ":RedfieldRelaxationTensor.__init__", F_TDR + ":TDRedfieldRelaxationTensor._implementation",
+                    F_FOE + ":FoersterRelaxationTensor.initialize", F_REL + ":RelaxationTensor.secularize",
+                    F_REL + ":RelaxationTensor.transform", "quantarhei/core/managers.py:eigenbasis_of.__exit__"],
+         bound="dimer aggregate (ground + 2 sites) with its real baths (4 time points); Hamiltonian given by its "
+               "eigen-decomposition (block rotation, ground state decoupled); the tensor is requested through "
+               "Aggregate.get_RelaxationTensor (theory, time_dependent, secular) and read outside every context",
+         out="modified Redfield, non-equilibrium Foerster, combined theories through the dispatcher (their tensor "
+             "classes are checked directly where they exist above)")
+def opensystem_dispatch(cx, theory, td, secular):
+    from harness.common import build_aggregate, spectral_hamiltonian
+    agg = build_aggregate(cx, 2, Nt=4)
+    N = agg.HamOp.dim
+    H, w, S = spectral_hamiltonian(cx, N, block=[[0], list(range(1, N))])
+    agg.HamOp._data = H.copy()
+    time = agg.sbi.TimeAxis
+    if theory == "stF" and cx.sym:
+        sbi = agg.get_SystemBathInteraction()
+        p = _patch_foerster_inputs(cx, sbi, N, time.length)
+    else:
+        p = None
+    try:
+        RT, ham = agg.get_RelaxationTensor(time, relaxation_theory=theory, time_dependent=td,
+                                           secular_relaxation=secular)
+    finally:
+        _unpatch(p)
+    data = RT.data
+    trace_and_herm(cx, "R", data)
+    cx.prove("basis_restored", RT.get_current_basis() == 0 and agg.HamOp.get_current_basis() == 0
+             and agg.HamOp.is_basis_protected is False)
+    cx.prove_eq("H_untouched", agg.HamOp._data, H)
